@@ -127,8 +127,10 @@ inductive Ret where
 structure Out where
   /-- /dev/fuse: one element per `write`/`writev` system call on the session fd -/
   sys : List Bytes := []
-  /-- virtio-fs: stores into the writable descriptor area, (offset, bytes), in program order -/
-  placed : List (Nat × Bytes) := []
+  /-- virtio-fs: the bytes the server stored into the writable descriptor area, as the final
+      content of its prefix (offset 0 upward; header and payload stores of split writers are
+      adjacent, so the area content is their concatenation) -/
+  area : Bytes := []
   deriving Repr, DecidableEq, Inhabited
 
 structure Cfg where
@@ -154,7 +156,7 @@ def outHeader (len err unique : Nat) : Bytes := le32 len ++ le32 err ++ le64 uni
 
 /-- emit a complete message at the start of an unsplit writer -/
 def emit (cfg : Cfg) (msg : Bytes) : Out :=
-  if cfg.fusedev then { sys := [msg] } else { placed := [(0, msg)] }
+  if cfg.fusedev then { sys := [msg] } else { area := msg }
 
 /-- `SrvContext::reply_ok(out, data)`: header + body + data in one `write`/`write_vectored` -/
 def replyOk (cfg : Cfg) (unique : Nat) (body data : Bytes) : Out × Ret :=
@@ -238,30 +240,34 @@ def FS_OPTIONS_ALL : Nat :=
   0x100000 ||| 0x200000 ||| 0x400000 ||| 0x800000 ||| 0x1000000 ||| 0x2000000 ||| 0x4000000 |||
   0x8000000 ||| 0x10000000 ||| 0x40000000 ||| 0x200000000 ||| 0x8000000000 ||| 0x8000000000000000
 
+/-- a handler that ends in `reply_error(e)` (or `reply_error_explicit`) -/
+def errRes (cfg : Cfg) (unique : Nat) (calls : List Call) (allocs : List Nat) (e : IoErr) : Res :=
+  { calls := calls, out := (replyErr cfg unique e).1, ret := (replyErr cfg unique e).2,
+    minor := cfg.minor, allocs := allocs }
+
+/-- a handler that ends in `reply_ok(body, data)`; `minor` = negotiated version afterwards -/
+def okRes (cfg : Cfg) (unique : Nat) (calls : List Call) (allocs : List Nat) (body data : Bytes)
+    (minor : Nat) : Res :=
+  { calls := calls, out := (replyOk cfg unique body data).1, ret := (replyOk cfg unique body data).2,
+    minor := minor, allocs := allocs }
+
 /-- result of the common tail `match fs.op(..) { Ok(x) => reply_ok(..), Err(e) => reply_error(e) }` -/
 def finish (cfg : Cfg) (unique : Nat) (calls : List Call) (allocs : List Nat) (a : Ans)
     (okBody : Ans → Option (Bytes × Bytes)) : Res :=
   match a with
-  | .err e =>
-    let (o, r) := replyErr cfg unique e
-    { calls := calls, out := o, ret := r, minor := cfg.minor, allocs := allocs }
+  | .err e => errRes cfg unique calls allocs e
   | a =>
     match okBody a with
-    | some (body, data) =>
-      let (o, r) := replyOk cfg unique body data
-      { calls := calls, out := o, ret := r, minor := cfg.minor, allocs := allocs }
-    | none =>
-      -- the scripted answer has the wrong shape for this method: treated as ENOSYS by the double
-      let (o, r) := replyErr cfg unique (.os ENOSYS)
-      { calls := calls, out := o, ret := r, minor := cfg.minor, allocs := allocs }
+    | some (body, data) => okRes cfg unique calls allocs body data cfg.minor
+    -- the scripted answer has the wrong shape for this method: treated as ENOSYS by the double
+    | none => errRes cfg unique calls allocs (.os ENOSYS)
 
 def bail (cfg : Cfg) (calls : List Call) (allocs : List Nat) (e : SrvErr) : Res :=
   { calls := calls, ret := .err e, minor := cfg.minor, allocs := allocs }
 
 /-- name decoding failed: `reply_error_explicit(EINVAL)` (result ignored) then `Err(InvalidCString)` -/
 def badName (cfg : Cfg) (unique : Nat) (calls : List Call) (allocs : List Nat) : Res :=
-  let (o, _) := replyErr cfg unique (.os EINVAL)
-  { calls := calls, out := o, ret := .err .invalidCString, minor := cfg.minor, allocs := allocs }
+  { errRes cfg unique calls allocs (.os EINVAL) with ret := .err .invalidCString }
 
 def unitBody : Ans → Option (Bytes × Bytes)
   | .unit => some ([], [])
@@ -275,29 +281,43 @@ def attrBody : Ans → Option (Bytes × Bytes)
   | .attr st secs nanos => some (attrOutBytes secs nanos (attrOfStat st), [])
   | _ => none
 
+/-- one `cursor.write_all(chunk)`: refused as a whole when it does not fit the cursor; an
+    empty chunk is not written at all; nothing is written after a failure -/
+def pushChunk (cursorCap written : Nat) (acc : Bytes × Bool) (chunk : Bytes) : Bytes × Bool :=
+  if acc.2 then acc
+  else if chunk.isEmpty then acc
+  else if written + acc.1.length + chunk.length > cursorCap then (acc.1, true)
+  else (acc.1 ++ chunk, false)
+
+def writeChunks (cursorCap written : Nat) (chunks : List Bytes) : Bytes × Bool :=
+  chunks.foldl (pushChunk cursorCap written) ([], false)
+
+/-- length of the record `add_dirent` accounts for: dirent + name padded to 8, plus the entry -/
+def direntTotal (d : DirEnt) (e : Option Entry) : Nat :=
+  let padded := (DIRENT + d.name.length + 7) / 8 * 8
+  if e.isSome then padded + ENTRY_OUT else padded
+
+/-- the four pieces written for one record: [EntryOut] Dirent name padding -/
+def direntChunks (d : DirEnt) (e : Option Entry) : List Bytes :=
+  let direntLen := DIRENT + d.name.length
+  let padded := (direntLen + 7) / 8 * 8
+  [ (match e with
+     | some en => entryOutBytes (entryOutOfEntry en)
+     | none => []),
+    le64 d.ino ++ le64 d.off ++ le32 d.name.length ++ le32 d.type,
+    d.name,
+    zeros (padded - direntLen) ]
+
 /-- `add_dirent`: returns (bytes appended, result) given the bytes already in the cursor and the
     cursor's capacity.  Result: `ok 0` = does not fit (accounted against the client's `size`),
     `ok n` = written, `err` = a cursor write failed (the cursor is smaller than `size`). -/
 def addDirent (size cursorCap written : Nat) (d : DirEnt) (e : Option Entry) :
     Bytes × Except IoErr Nat :=
-  let direntLen := DIRENT + d.name.length
-  let padded := (direntLen + 7) / 8 * 8
-  let total := if e.isSome then padded + ENTRY_OUT else padded
-  if size - written < total then ([], .ok 0)
+  if size - written < direntTotal d e then ([], .ok 0)
   else
-    let entryB := match e with
-      | some en => entryOutBytes (entryOutOfEntry en)
-      | none => []
-    let direntB := le64 d.ino ++ le64 d.off ++ le32 d.name.length ++ le32 d.type
-    let padB := zeros (padded - direntLen)
-    -- four `write_all`s, each refused as a whole when it does not fit the cursor
-    let step (acc : Bytes × Bool) (chunk : Bytes) : Bytes × Bool :=
-      if acc.2 then acc
-      else if chunk.isEmpty then acc
-      else if written + acc.1.length + chunk.length > cursorCap then (acc.1, true)
-      else (acc.1 ++ chunk, false)
-    let (bs, failed) := [entryB, direntB, d.name, padB].foldl step ([], false)
-    if failed then (bs, .error (.kind "InvalidData")) else (bs, .ok total)
+    match writeChunks cursorCap written (direntChunks d e) with
+    | (bs, true) => (bs, .error (.kind "InvalidData"))
+    | (bs, false) => (bs, .ok (direntTotal d e))
 
 /-- the file system's readdir loop over the scripted entries -/
 def dirLoop (size cursorCap : Nat) (plus propagate : Bool) :
@@ -320,45 +340,147 @@ def isForget (op : Nat) : Bool := op == 2 || op == 42
     INTERRUPT, NOTIFY_REPLY) -/
 def needsReply (op : Nat) : Bool := !(op == 2 || op == 42 || op == 36 || op == 41)
 
+/-- a reply sent through a writer that was split at the header (READ / READDIR): the header
+    part holds exactly 16 bytes, so an error reply always fits -/
+def splitErr (cfg : Cfg) (unique : Nat) (calls : List Call) (e : IoErr) (junk : Bytes) : Res :=
+  let h := outHeader OUT_HDR (errField e) unique
+  { calls := calls, ret := .ok OUT_HDR, minor := cfg.minor,
+    out := if cfg.fusedev then { sys := [h] } else { area := h ++ junk } }
+
+def splitOk (cfg : Cfg) (unique : Nat) (calls : List Call) (payload : Bytes) : Res :=
+  let len := (OUT_HDR + payload.length) % 2 ^ 32
+  { calls := calls, ret := .ok len, minor := cfg.minor,
+    out := emit cfg (outHeader len 0 unique ++ payload) }
+
+/-- READ, after `split_at(16)` succeeded: the file system writes into the data part -/
+def readReply (cfg : Cfg) (unique : Nat) (calls : List Call) (a : Ans) : Res :=
+  match a with
+  | .data d =>
+    if d.length > cfg.cap - OUT_HDR then splitErr cfg unique calls (.kind "InvalidData") []
+    else splitOk cfg unique calls d
+  | .err e => splitErr cfg unique calls e []
+  | _ => splitErr cfg unique calls (.os ENOSYS) []
+
+/-- READDIR(PLUS), after `split_at(16)` succeeded -/
+def dirReply (cfg : Cfg) (unique : Nat) (calls : List Call) (size : Nat) (plus : Bool) (a : Ans) : Res :=
+  match a with
+  | .dirents ds propagate =>
+    match dirLoop size (cfg.cap - OUT_HDR) plus propagate ds [] with
+    | (payload, some e) => splitErr cfg unique calls e payload
+    | (payload, none) => splitOk cfg unique calls payload
+  | .err e => splitErr cfg unique calls e []
+  | _ => splitErr cfg unique calls (.os ENOSYS) []
+
+/-- LOOKUP: before protocol 7.4 a zero inode is not a valid negative entry -/
+def lookupReply (cfg : Cfg) (unique : Nat) (calls : List Call) (al : List Nat) (a : Ans) : Res :=
+  match a with
+  | .entry e =>
+    if cfg.minor < 4 && e.inode == 0 then errRes cfg unique calls al (.os ENOENT)
+    else finish cfg unique calls al (.entry e) entryBody
+  | a => finish cfg unique calls al a entryBody
+
+/-- NOTIFY_REPLY: only an error is answered -/
+def notifyReply (cfg : Cfg) (unique : Nat) (calls : List Call) (a : Ans) : Res :=
+  match a with
+  | .err e => errRes cfg unique calls [] e
+  | _ => { calls := calls, ret := .ok 0, minor := cfg.minor }
+
+/-! #### INIT negotiation -/
+
+/-- the 64-bit capability word: `flags`, plus `flags2` when INIT_EXT is set and the extended
+    payload is present; INIT_EXT itself is dropped when the payload is missing; truncated to
+    the bits `FsOptions` knows -/
+def initCapable (flags : Nat) (rest : Bytes) : Nat :=
+  (if flags &&& INIT_EXT != 0 then
+     if rest.length ≥ 48 then flags ||| (u32At rest 0 <<< 32)
+     else flags &&& (2 ^ 64 - 1 - INIT_EXT)
+   else flags) &&& FS_OPTIONS_ALL
+
+/-- `enabled = capable & want` -/
+def initEnabled (capable want : Nat) : Nat := capable &&& (want &&& FS_OPTIONS_ALL)
+
+def initMaxWrite (cfg : Cfg) (enabled : Nat) : Nat :=
+  if enabled &&& MAX_PAGES_FLAG != 0 then (MAX_REQ_PAGES * cfg.pagesize) % 2 ^ 32
+  else if enabled &&& BIG_WRITES != 0 then (MAX_REQ_PAGES * cfg.pagesize) % 2 ^ 32
+  else MIN_READ_BUFFER - BUFFER_HEADER_SIZE
+
+def initMaxPages (enabled : Nat) : Nat := if enabled &&& MAX_PAGES_FLAG != 0 then MAX_REQ_PAGES else 0
+
+/-- the 64-bit word whose halves become `flags` and `flags2`: the enabled set, plus the INIT_EXT
+    marker whenever an extended bit is enabled -/
+def initFlagsOut (enabled : Nat) : Nat :=
+  if enabled >>> 32 != 0 then enabled ||| INIT_EXT else enabled
+
+/-- the full 64-byte `fuse_init_out` -/
+def initOutFull (cfg : Cfg) (readahead enabled : Nat) : Bytes :=
+  le32 KERNEL_VERSION ++ le32 KERNEL_MINOR_VERSION ++ le32 readahead ++
+  le32 (initFlagsOut enabled % 2 ^ 32) ++ le16 65535 ++ le16 49149 ++ le32 (initMaxWrite cfg enabled) ++ le32 1 ++
+  le16 (initMaxPages enabled) ++ le16 0 ++ le32 (initFlagsOut enabled >>> 32) ++ zeros 28
+
+/-- laid out for the client's minor version: 8 / 24 / 64 bytes -/
+def initOutBody (cfg : Cfg) (minor readahead enabled : Nat) : Bytes :=
+  if minor < 5 then (initOutFull cfg readahead enabled).take 8
+  else if minor < 23 then (initOutFull cfg readahead enabled).take 24
+  else initOutFull cfg readahead enabled
+
+def initReply (cfg : Cfg) (unique : Nat) (calls : List Call) (minor readahead capable : Nat) (a : Ans) : Res :=
+  match a with
+  | .want w => okRes cfg unique calls [] (initOutBody cfg minor readahead (initEnabled capable w)) [] minor
+  | .err e => errRes cfg unique calls [] e
+  | _ => errRes cfg unique calls [] (.os ENOSYS)
+
+/-- `Server::init`; `rest` = request bytes after `InitIn` -/
+def initHandler (cfg : Cfg) (fs : Call → Ans) (unique : Nat) (calls0 : List Call) (rest b : Bytes) : Res :=
+  if u32At b 0 < KERNEL_VERSION then errRes cfg unique calls0 [] (.os EPROTO)
+  else if u32At b 0 > KERNEL_VERSION then
+    okRes cfg unique calls0 [] (le32 KERNEL_VERSION ++ le32 KERNEL_MINOR_VERSION ++ zeros 56) [] cfg.minor
+  else
+    let capable := initCapable (u32At b 12) rest
+    let c : Call := { method := "init", ctx := { uid := 0, gid := 0, pid := 0 }, args := [.n capable] }
+    initReply cfg unique (calls0 ++ [c]) (u32At b 4) (u32At b 8) capable (fs c)
+
+def mkCall (ctx : Ctx) (m : String) (args : List Arg) : Call := { method := m, ctx := ctx, args := args }
+
+/-- call the file system once, then the common reply tail -/
+def simple (cfg : Cfg) (fs : Call → Ans) (unique : Nat) (calls0 : List Call) (c : Call)
+    (allocs : List Nat) (okb : Ans → Option (Bytes × Bytes)) : Res :=
+  finish cfg unique (calls0 ++ [c]) allocs (fs c) okb
+
+/-- `ctx.r.read_obj::<T>()` of an `n`-byte structure -/
+def withObj (cfg : Cfg) (calls0 : List Call) (r : Bytes) (n : Nat) (k : Bytes → Res) : Res :=
+  if r.length < n then bail cfg calls0 [] .decodeMessage else k (r.take n)
+
+/-- `get_message_body(.., sub)` + `bytes_to_cstr` with the explicit-EINVAL error path -/
+def named (cfg : Cfg) (unique : Nat) (calls0 : List Call) (hdrLen : Nat) (r : Bytes) (sub : Nat)
+    (k : Bytes → List Nat → Res) : Res :=
+  match getBody hdrLen sub (r.drop sub) with
+  | .error e => bail cfg calls0 [] e
+  | .ok (body, n) =>
+    match cstr body with
+    | none => badName cfg unique calls0 [n]
+    | some name => k name [n]
+
 def handleBody (cfg : Cfg) (fs : Call → Ans) (ctx : Ctx) (calls0 : List Call)
     (hdrLen op unique nodeid : Nat) (r : Bytes) : Res :=
-  let mk (m : String) (args : List Arg) : Call := { method := m, ctx := ctx, args := args }
-  let simple (c : Call) (allocs : List Nat) (okb : Ans → Option (Bytes × Bytes)) : Res :=
-    finish cfg unique (calls0 ++ [c]) allocs (fs c) okb
-  let named (sub : Nat) (k : Bytes → List Nat → Res) : Res :=
-    match getBody hdrLen sub (r.drop sub) with
-    | .error e => bail cfg calls0 [] e
-    | .ok (body, n) =>
-      match cstr body with
-      | none => badName cfg unique calls0 [n]
-      | some name => k name [n]
-  let withObj (n : Nat) (k : Bytes → Res) : Res :=
-    if r.length < n then bail cfg calls0 [] .decodeMessage else k (r.take n)
   match op with
   | 1 => -- LOOKUP
-    named 0 fun name al =>
-      let c := mk "lookup" [.n nodeid, .bytes name]
-      match fs c with
-      | .entry e =>
-        if cfg.minor < 4 && e.inode == 0 then
-          let (o, rt) := replyErr cfg unique (.os ENOENT)
-          { calls := calls0 ++ [c], out := o, ret := rt, minor := cfg.minor, allocs := al }
-        else finish cfg unique (calls0 ++ [c]) al (.entry e) entryBody
-      | a => finish cfg unique (calls0 ++ [c]) al a entryBody
+    named cfg unique calls0 hdrLen r 0 fun name al =>
+      let c := mkCall ctx "lookup" [.n nodeid, .bytes name]
+      lookupReply cfg unique (calls0 ++ [c]) al (fs c)
   | 2 => -- FORGET (never replies)
-    withObj 8 fun b =>
-      { calls := calls0 ++ [mk "forget" [.n nodeid, .n (u64At b 0)]], ret := .ok 0, minor := cfg.minor }
+    withObj cfg calls0 r 8 fun b =>
+      { calls := calls0 ++ [mkCall ctx "forget" [.n nodeid, .n (u64At b 0)]], ret := .ok 0, minor := cfg.minor }
   | 3 => -- GETATTR
-    withObj 16 fun b =>
+    withObj cfg calls0 r 16 fun b =>
       let fh := if u32At b 0 &&& GETATTR_FH != 0 then some (u64At b 8) else none
-      simple (mk "getattr" [.n nodeid, .optN fh]) [] attrBody
+      simple cfg fs unique calls0 (mkCall ctx "getattr" [.n nodeid, .optN fh]) [] attrBody
   | 4 => -- SETATTR
-    withObj 88 fun b =>
+    withObj cfg calls0 r 88 fun b =>
       let s := setattrOf b
       let fh := if s.valid &&& FATTR_FH != 0 then some s.fh else none
-      simple (mk "setattr" [.n nodeid, .stat (statOfSetattr s), .optN fh, .n (s.valid &&& SETATTR_VALID_MASK)]) [] attrBody
+      simple cfg fs unique calls0 (mkCall ctx "setattr" [.n nodeid, .stat (statOfSetattr s), .optN fh, .n (s.valid &&& SETATTR_VALID_MASK)]) [] attrBody
   | 5 => -- READLINK
-    simple (mk "readlink" [.n nodeid]) [] fun
+    simple cfg fs unique calls0 (mkCall ctx "readlink" [.n nodeid]) [] fun
       | .data d => some ([], d)
       | _ => none
   | 6 => -- SYMLINK
@@ -367,88 +489,73 @@ def handleBody (cfg : Cfg) (fs : Call → Ans) (ctx : Ctx) (calls0 : List Call)
     | .ok (body, n) =>
       match twoCstrs body with
       | .error e => bail cfg calls0 [n] e
-      | .ok (name, link) => simple (mk "symlink" [.bytes link, .n nodeid, .bytes name]) [n] entryBody
+      | .ok (name, link) => simple cfg fs unique calls0 (mkCall ctx "symlink" [.bytes link, .n nodeid, .bytes name]) [n] entryBody
   | 8 => -- MKNOD
-    withObj 16 fun b => named 16 fun name al =>
-      simple (mk "mknod" [.n nodeid, .bytes name, .n (u32At b 0), .n (u32At b 4), .n (u32At b 8)]) al entryBody
+    withObj cfg calls0 r 16 fun b => named cfg unique calls0 hdrLen r 16 fun name al =>
+      simple cfg fs unique calls0 (mkCall ctx "mknod" [.n nodeid, .bytes name, .n (u32At b 0), .n (u32At b 4), .n (u32At b 8)]) al entryBody
   | 9 => -- MKDIR
-    withObj 8 fun b => named 8 fun name al =>
-      simple (mk "mkdir" [.n nodeid, .bytes name, .n (u32At b 0), .n (u32At b 4)]) al entryBody
-  | 10 => named 0 fun name al => simple (mk "unlink" [.n nodeid, .bytes name]) al unitBody
-  | 11 => named 0 fun name al => simple (mk "rmdir" [.n nodeid, .bytes name]) al unitBody
+    withObj cfg calls0 r 8 fun b => named cfg unique calls0 hdrLen r 8 fun name al =>
+      simple cfg fs unique calls0 (mkCall ctx "mkdir" [.n nodeid, .bytes name, .n (u32At b 0), .n (u32At b 4)]) al entryBody
+  | 10 => named cfg unique calls0 hdrLen r 0 fun name al => simple cfg fs unique calls0 (mkCall ctx "unlink" [.n nodeid, .bytes name]) al unitBody
+  | 11 => named cfg unique calls0 hdrLen r 0 fun name al => simple cfg fs unique calls0 (mkCall ctx "rmdir" [.n nodeid, .bytes name]) al unitBody
   | 12 => -- RENAME
-    withObj 8 fun b =>
+    withObj cfg calls0 r 8 fun b =>
       match getBody hdrLen 8 (r.drop 8) with
       | .error e => bail cfg calls0 [] e
       | .ok (body, n) =>
         match twoCstrs body with
         | .error e => bail cfg calls0 [n] e
-        | .ok (o, nw) => simple (mk "rename" [.n nodeid, .bytes o, .n (u64At b 0), .bytes nw, .n 0]) [n] unitBody
+        | .ok (o, nw) => simple cfg fs unique calls0 (mkCall ctx "rename" [.n nodeid, .bytes o, .n (u64At b 0), .bytes nw, .n 0]) [n] unitBody
   | 45 => -- RENAME2
-    withObj 16 fun b =>
+    withObj cfg calls0 r 16 fun b =>
       match getBody hdrLen 16 (r.drop 16) with
       | .error e => bail cfg calls0 [] e
       | .ok (body, n) =>
         match twoCstrs body with
         | .error e => bail cfg calls0 [n] e
         | .ok (o, nw) =>
-          simple (mk "rename" [.n nodeid, .bytes o, .n (u64At b 0), .bytes nw, .n (u32At b 8 &&& RENAME_MASK)]) [n] unitBody
+          simple cfg fs unique calls0 (mkCall ctx "rename" [.n nodeid, .bytes o, .n (u64At b 0), .bytes nw, .n (u32At b 8 &&& RENAME_MASK)]) [n] unitBody
   | 13 => -- LINK
-    withObj 8 fun b => named 8 fun name al =>
-      simple (mk "link" [.n (u64At b 0), .n nodeid, .bytes name]) al entryBody
+    withObj cfg calls0 r 8 fun b => named cfg unique calls0 hdrLen r 8 fun name al =>
+      simple cfg fs unique calls0 (mkCall ctx "link" [.n (u64At b 0), .n nodeid, .bytes name]) al entryBody
   | 14 => -- OPEN
-    withObj 8 fun b =>
-      simple (mk "open" [.n nodeid, .n (u32At b 0), .n (u32At b 4)]) [] fun
+    withObj cfg calls0 r 8 fun b =>
+      simple cfg fs unique calls0 (mkCall ctx "open" [.n nodeid, .n (u32At b 0), .n (u32At b 4)]) [] fun
         | .opened fh opts pt => some (openOutBytes fh opts pt, [])
         | _ => none
   | 15 => -- READ
-    withObj 40 fun b =>
+    withObj cfg calls0 r 40 fun b =>
       let owner := if u32At b 20 &&& READ_LOCKOWNER != 0 then some (u64At b 24) else none
       if cfg.cap < OUT_HDR then bail cfg calls0 [] .invalidHeaderLength
       else
-        let c := mk "read" [.n nodeid, .n (u64At b 0), .n (u32At b 16), .n (u64At b 8), .optN owner, .n (u32At b 32)]
-        let dataCap := cfg.cap - OUT_HDR
-        let errReply (e : IoErr) : Res :=
-          let h := outHeader OUT_HDR (errField e) unique
-          { calls := calls0 ++ [c], ret := .ok OUT_HDR, minor := cfg.minor,
-            out := if cfg.fusedev then { sys := [h] } else { placed := [(0, h)] } }
-        match fs c with
-        | .data d =>
-          if d.length > dataCap then errReply (.kind "InvalidData")
-          else
-            let len := (OUT_HDR + d.length) % 2 ^ 32
-            let h := outHeader len 0 unique
-            { calls := calls0 ++ [c], ret := .ok len, minor := cfg.minor,
-              out := if cfg.fusedev then { sys := [h ++ d] }
-                     else { placed := (if d.isEmpty then [] else [(OUT_HDR, d)]) ++ [(0, h)] } }
-        | .err e => errReply e
-        | _ => errReply (.os ENOSYS)
+        let c := mkCall ctx "read" [.n nodeid, .n (u64At b 0), .n (u32At b 16), .n (u64At b 8), .optN owner, .n (u32At b 32)]
+        readReply cfg unique (calls0 ++ [c]) (fs c)
   | 16 => -- WRITE
-    withObj 40 fun b =>
+    withObj cfg calls0 r 40 fun b =>
       let fuseFlags := u32At b 20
       let owner := if fuseFlags &&& WRITE_LOCKOWNER != 0 then some (u64At b 24) else none
       let size := u32At b 16
       let payload := (r.drop 40).take size
-      simple (mk "write" [.n nodeid, .n (u64At b 0), .bytes payload, .n size, .n (u64At b 8), .optN owner,
+      simple cfg fs unique calls0 (mkCall ctx "write" [.n nodeid, .n (u64At b 0), .bytes payload, .n size, .n (u64At b 8), .optN owner,
                           .b (fuseFlags &&& WRITE_CACHE != 0), .n (u32At b 32), .n fuseFlags]) [] fun
         | .count n => some (le32 n ++ le32 0, [])
         | _ => none
   | 17 => -- STATFS
-    simple (mk "statfs" [.n nodeid]) [] fun
+    simple cfg fs unique calls0 (mkCall ctx "statfs" [.n nodeid]) [] fun
       | .statfs s => some (kstatfsBytes (kstatfsOfStatvfs s), [])
       | _ => none
   | 18 => -- RELEASE
-    withObj 24 fun b =>
+    withObj cfg calls0 r 24 fun b =>
       let rf := u32At b 12
       let flush := rf &&& RELEASE_FLUSH != 0
       let flock := rf &&& RELEASE_FLOCK_UNLOCK != 0
       let owner := if flush || flock then some (u64At b 16) else none
-      simple (mk "release" [.n nodeid, .n (u32At b 8), .n (u64At b 0), .b flush, .b flock, .optN owner]) [] unitBody
+      simple cfg fs unique calls0 (mkCall ctx "release" [.n nodeid, .n (u32At b 8), .n (u64At b 0), .b flush, .b flock, .optN owner]) [] unitBody
   | 20 => -- FSYNC
-    withObj 16 fun b =>
-      simple (mk "fsync" [.n nodeid, .b (u32At b 8 &&& 1 != 0), .n (u64At b 0)]) [] unitBody
+    withObj cfg calls0 r 16 fun b =>
+      simple cfg fs unique calls0 (mkCall ctx "fsync" [.n nodeid, .b (u32At b 8 &&& 1 != 0), .n (u64At b 0)]) [] unitBody
   | 21 => -- SETXATTR
-    withObj 8 fun b =>
+    withObj cfg calls0 r 8 fun b =>
       match getBody hdrLen 8 (r.drop 8) with
       | .error e => bail cfg calls0 [] e
       | .ok (body, n) =>
@@ -457,166 +564,96 @@ def handleBody (cfg : Cfg) (fs : Call → Ans) (ctx : Ctx) (calls0 : List Call)
           let name := body.takeWhile (· != 0)
           let value := body.drop (name.length + 1)
           if u32At b 0 != value.length % 2 ^ 32 then bail cfg calls0 [n] .invalidXattrSize
-          else simple (mk "setxattr" [.n nodeid, .bytes name, .bytes value, .n (u32At b 4)]) [n] unitBody
+          else simple cfg fs unique calls0 (mkCall ctx "setxattr" [.n nodeid, .bytes name, .bytes value, .n (u32At b 4)]) [n] unitBody
   | 22 => -- GETXATTR
-    withObj 8 fun b => named 8 fun name al =>
-      simple (mk "getxattr" [.n nodeid, .bytes name, .n (u32At b 0)]) al fun
+    withObj cfg calls0 r 8 fun b => named cfg unique calls0 hdrLen r 8 fun name al =>
+      simple cfg fs unique calls0 (mkCall ctx "getxattr" [.n nodeid, .bytes name, .n (u32At b 0)]) al fun
         | .data d => some ([], d)
         | .count n => some (le32 n ++ le32 0, [])
         | _ => none
   | 23 => -- LISTXATTR
-    withObj 8 fun b =>
-      simple (mk "listxattr" [.n nodeid, .n (u32At b 0)]) [] fun
+    withObj cfg calls0 r 8 fun b =>
+      simple cfg fs unique calls0 (mkCall ctx "listxattr" [.n nodeid, .n (u32At b 0)]) [] fun
         | .data d => some ([], d)
         | .count n => some (le32 n ++ le32 0, [])
         | _ => none
-  | 24 => named 0 fun name al => simple (mk "removexattr" [.n nodeid, .bytes name]) al unitBody
+  | 24 => named cfg unique calls0 hdrLen r 0 fun name al => simple cfg fs unique calls0 (mkCall ctx "removexattr" [.n nodeid, .bytes name]) al unitBody
   | 25 => -- FLUSH
-    withObj 24 fun b => simple (mk "flush" [.n nodeid, .n (u64At b 0), .n (u64At b 16)]) [] unitBody
+    withObj cfg calls0 r 24 fun b => simple cfg fs unique calls0 (mkCall ctx "flush" [.n nodeid, .n (u64At b 0), .n (u64At b 16)]) [] unitBody
   | 26 => -- INIT
-    withObj 16 fun b =>
-      let major := u32At b 0
-      let minor := u32At b 4
-      let readahead := u32At b 8
-      let flags := u32At b 12
-      if major < KERNEL_VERSION then
-        let (o, rt) := replyErr cfg unique (.os EPROTO)
-        { calls := calls0, out := o, ret := rt, minor := cfg.minor }
-      else if major > KERNEL_VERSION then
-        let body := le32 KERNEL_VERSION ++ le32 KERNEL_MINOR_VERSION ++ zeros 56
-        let (o, rt) := replyOk cfg unique body []
-        { calls := calls0, out := o, ret := rt, minor := cfg.minor }
-      else
-        let rest := r.drop 16
-        -- INIT_EXT with a present InitIn2 payload adds flags2; without the payload the bit is dropped
-        let flags64? : Option Nat :=
-          if flags &&& INIT_EXT != 0 then
-            if rest.length ≥ 48 then some (flags ||| (u32At rest 0 <<< 32))
-            else some (flags &&& (2 ^ 64 - 1 - INIT_EXT))
-          else some flags
-        match flags64? with
-        | none => bail cfg calls0 [] .decodeMessage
-        | some flags64 =>
-          let capable := flags64 &&& FS_OPTIONS_ALL
-          let c : Call := { method := "init", ctx := { uid := 0, gid := 0, pid := 0 }, args := [.n capable] }
-          match fs c with
-          | .want w =>
-            let want := w &&& FS_OPTIONS_ALL
-            let enabled := capable &&& want
-            let maxWrite :=
-              if enabled &&& MAX_PAGES_FLAG != 0 then (MAX_REQ_PAGES * cfg.pagesize) % 2 ^ 32
-              else if enabled &&& BIG_WRITES != 0 then (MAX_REQ_PAGES * cfg.pagesize) % 2 ^ 32
-              else MIN_READ_BUFFER - BUFFER_HEADER_SIZE
-            let maxPages := if enabled &&& MAX_PAGES_FLAG != 0 then MAX_REQ_PAGES else 0
-            let full := le32 KERNEL_VERSION ++ le32 KERNEL_MINOR_VERSION ++ le32 readahead ++
-              le32 (enabled % 2 ^ 32) ++ le16 65535 ++ le16 49149 ++ le32 maxWrite ++ le32 1 ++
-              le16 maxPages ++ le16 0 ++ le32 (enabled >>> 32) ++ zeros 28
-            let body := if minor < 5 then full.take 8 else if minor < 23 then full.take 24 else full
-            let (o, rt) := replyOk cfg unique body []
-            { calls := calls0 ++ [c], out := o, ret := rt, minor := minor }
-          | .err e =>
-            let (o, rt) := replyErr cfg unique e
-            { calls := calls0 ++ [c], out := o, ret := rt, minor := cfg.minor }
-          | _ =>
-            let (o, rt) := replyErr cfg unique (.os ENOSYS)
-            { calls := calls0 ++ [c], out := o, ret := rt, minor := cfg.minor }
+    withObj cfg calls0 r 16 fun b => initHandler cfg fs unique calls0 (r.drop 16) b
   | 27 => -- OPENDIR
-    withObj 8 fun b =>
-      simple (mk "opendir" [.n nodeid, .n (u32At b 0)]) [] fun
+    withObj cfg calls0 r 8 fun b =>
+      simple cfg fs unique calls0 (mkCall ctx "opendir" [.n nodeid, .n (u32At b 0)]) [] fun
         | .opened fh opts _ => some (openOutBytes fh opts none, [])
         | _ => none
   | 28 | 44 => -- READDIR / READDIRPLUS
-    withObj 40 fun b =>
+    withObj cfg calls0 r 40 fun b =>
       let plus := op == 44
       let size := u32At b 16
       if cfg.cap < size + OUT_HDR then
-        let (o, rt) := replyErr cfg unique (.os ENOMEM)
-        { calls := calls0, out := o, ret := rt, minor := cfg.minor }
+        errRes cfg unique (calls0) [] (.os ENOMEM)
       else if cfg.cap < OUT_HDR then bail cfg calls0 [] .invalidHeaderLength
       else
-        let c := mk (if plus then "readdirplus" else "readdir") [.n nodeid, .n (u64At b 0), .n size, .n (u64At b 8)]
-        let cursorCap := cfg.cap - OUT_HDR
-        let errReply (e : IoErr) (junk : Bytes) : Res :=
-          let h := outHeader OUT_HDR (errField e) unique
-          { calls := calls0 ++ [c], ret := .ok OUT_HDR, minor := cfg.minor,
-            out := if cfg.fusedev then { sys := [h] }
-                   else { placed := (if junk.isEmpty then [] else [(OUT_HDR, junk)]) ++ [(0, h)] } }
-        match fs c with
-        | .dirents ds propagate =>
-          let (payload, er) := dirLoop size cursorCap plus propagate ds []
-          match er with
-          | some e => errReply e payload
-          | none =>
-            let len := (OUT_HDR + payload.length) % 2 ^ 32
-            let h := outHeader len 0 unique
-            { calls := calls0 ++ [c], ret := .ok len, minor := cfg.minor,
-              out := if cfg.fusedev then { sys := [h ++ payload] }
-                     else { placed := (if payload.isEmpty then [] else [(OUT_HDR, payload)]) ++ [(0, h)] } }
-        | .err e => errReply e []
-        | _ => errReply (.os ENOSYS) []
+        let c := mkCall ctx (if plus then "readdirplus" else "readdir") [.n nodeid, .n (u64At b 0), .n size, .n (u64At b 8)]
+        dirReply cfg unique (calls0 ++ [c]) size plus (fs c)
   | 29 => -- RELEASEDIR
-    withObj 24 fun b => simple (mk "releasedir" [.n nodeid, .n (u32At b 8), .n (u64At b 0)]) [] unitBody
+    withObj cfg calls0 r 24 fun b => simple cfg fs unique calls0 (mkCall ctx "releasedir" [.n nodeid, .n (u32At b 8), .n (u64At b 0)]) [] unitBody
   | 30 => -- FSYNCDIR
-    withObj 16 fun b =>
-      simple (mk "fsyncdir" [.n nodeid, .b (u32At b 8 &&& 1 != 0), .n (u64At b 0)]) [] unitBody
+    withObj cfg calls0 r 16 fun b =>
+      simple cfg fs unique calls0 (mkCall ctx "fsyncdir" [.n nodeid, .b (u32At b 8 &&& 1 != 0), .n (u64At b 0)]) [] unitBody
   | 31 => -- GETLK
-    withObj 48 fun b =>
-      simple (mk "getlk" [.n nodeid, .n (u64At b 0), .n (u64At b 8),
+    withObj cfg calls0 r 48 fun b =>
+      simple cfg fs unique calls0 (mkCall ctx "getlk" [.n nodeid, .n (u64At b 0), .n (u64At b 8),
                           .lock (u64At b 16) (u64At b 24) (u32At b 32) (u32At b 36), .n (u32At b 40)]) [] fun
         | .lock s e t p => some (le64 s ++ le64 e ++ le32 t ++ le32 p, [])
         | _ => none
   | 32 => -- SETLK
-    withObj 48 fun b =>
-      simple (mk "setlk" [.n nodeid, .n (u64At b 0), .n (u64At b 8),
+    withObj cfg calls0 r 48 fun b =>
+      simple cfg fs unique calls0 (mkCall ctx "setlk" [.n nodeid, .n (u64At b 0), .n (u64At b 8),
                           .lock (u64At b 16) (u64At b 24) (u32At b 32) (u32At b 36), .n (u32At b 40)]) [] unitBody
   | 33 => -- SETLKW
-    withObj 48 fun b =>
-      simple (mk "setlkw" [.n nodeid, .n (u64At b 0), .n (u64At b 8),
+    withObj cfg calls0 r 48 fun b =>
+      simple cfg fs unique calls0 (mkCall ctx "setlkw" [.n nodeid, .n (u64At b 0), .n (u64At b 8),
                            .lock (u64At b 16) (u64At b 24) (u32At b 32) (u32At b 36), .n (u32At b 40)]) [] unitBody
   | 34 => -- ACCESS
-    withObj 8 fun b => simple (mk "access" [.n nodeid, .n (u32At b 0)]) [] unitBody
+    withObj cfg calls0 r 8 fun b => simple cfg fs unique calls0 (mkCall ctx "access" [.n nodeid, .n (u32At b 0)]) [] unitBody
   | 35 => -- CREATE
-    withObj 16 fun b => named 16 fun name al =>
-      simple (mk "create" [.n nodeid, .bytes name, .create (u32At b 0) (u32At b 4) (u32At b 8) (u32At b 12)]) al fun
+    withObj cfg calls0 r 16 fun b => named cfg unique calls0 hdrLen r 16 fun name al =>
+      simple cfg fs unique calls0 (mkCall ctx "create" [.n nodeid, .bytes name, .create (u32At b 0) (u32At b 4) (u32At b 8) (u32At b 12)]) al fun
         | .created e fh opts pt => some (entryOutBytes (entryOutOfEntry e), openOutBytes fh opts pt)
         | _ => none
   | 36 => { calls := calls0, ret := .ok 0, minor := cfg.minor }   -- INTERRUPT
   | 37 => -- BMAP
-    withObj 16 fun b =>
-      simple (mk "bmap" [.n nodeid, .n (u64At b 0), .n (u32At b 8)]) [] fun
+    withObj cfg calls0 r 16 fun b =>
+      simple cfg fs unique calls0 (mkCall ctx "bmap" [.n nodeid, .n (u64At b 0), .n (u32At b 8)]) [] fun
         | .count n => some (le64 n, [])
         | _ => none
   | 38 => -- DESTROY: reply errors are only logged
     let c : Call := { method := "destroy", ctx := { uid := 0, gid := 0, pid := 0 }, args := [] }
-    let (o, _) := replyOk cfg unique [] []
-    { calls := calls0 ++ [c], out := o, ret := .ok 0, minor := cfg.minor }
+    { okRes cfg unique (calls0 ++ [c]) [] [] [] cfg.minor with ret := .ok 0 }
   | 39 => -- IOCTL
-    withObj 32 fun b =>
+    withObj cfg calls0 r 32 fun b =>
       let inSize := u32At b 24
       let rest := r.drop 32
       if inSize > rest.length then
-        let (o, rt) := replyErr cfg unique (.os ENOTTY)
-        { calls := calls0, out := o, ret := rt, minor := cfg.minor, allocs := [] }
+        errRes cfg unique (calls0) [] (.os ENOTTY)
       else
         let d := rest.take inSize
-        simple (mk "ioctl" [.n nodeid, .n (u64At b 0), .n (u32At b 8), .n (u32At b 12),
+        simple cfg fs unique calls0 (mkCall ctx "ioctl" [.n nodeid, .n (u64At b 0), .n (u32At b 8), .n (u32At b 12),
                             .optN (if d.isEmpty then none else some 1), .bytes d, .n (u32At b 28)]) [inSize] fun
           | .ioctl res data => some (le32 res ++ zeros 12, data.getD [])
           | _ => none
   | 40 => -- POLL
-    withObj 24 fun b =>
-      simple (mk "poll" [.n nodeid, .n (u64At b 0), .n (u64At b 8), .n (u32At b 16), .n (u32At b 20)]) [] fun
+    withObj cfg calls0 r 24 fun b =>
+      simple cfg fs unique calls0 (mkCall ctx "poll" [.n nodeid, .n (u64At b 0), .n (u64At b 8), .n (u32At b 16), .n (u32At b 20)]) [] fun
         | .count n => some (le32 n ++ le32 0, [])
         | _ => none
   | 41 => -- NOTIFY_REPLY
     let c : Call := { method := "notify_reply", ctx := { uid := 0, gid := 0, pid := 0 }, args := [] }
-    match fs c with
-    | .err e =>
-      let (o, rt) := replyErr cfg unique e
-      { calls := calls0 ++ [c], out := o, ret := rt, minor := cfg.minor }
-    | _ => { calls := calls0 ++ [c], ret := .ok 0, minor := cfg.minor }
+    notifyReply cfg unique (calls0 ++ [c]) (fs c)
   | 42 => -- BATCH_FORGET (never replies)
-    withObj 8 fun b =>
+    withObj cfg calls0 r 8 fun b =>
       let count := u32At b 0
       if count * 16 > MAX_BUFFER_SIZE + BUFFER_HEADER_SIZE - 8 - IN_HDR then bail cfg calls0 [] .invalidMessage
       else
@@ -624,64 +661,65 @@ def handleBody (cfg : Cfg) (fs : Call → Ans) (ctx : Ctx) (calls0 : List Call)
         if rest.length < count * 16 then bail cfg calls0 [count * 16] .decodeMessage
         else
           let items := (List.range count).map fun i => (u64At rest (16 * i), u64At rest (16 * i + 8))
-          { calls := calls0 ++ [mk "batch_forget" [.pairs items]], ret := .ok 0, minor := cfg.minor,
+          { calls := calls0 ++ [mkCall ctx "batch_forget" [.pairs items]], ret := .ok 0, minor := cfg.minor,
             allocs := [count * 16] }
   | 43 => -- FALLOCATE
-    withObj 32 fun b =>
-      simple (mk "fallocate" [.n nodeid, .n (u64At b 0), .n (u32At b 24), .n (u64At b 8), .n (u64At b 16)]) [] unitBody
+    withObj cfg calls0 r 32 fun b =>
+      simple cfg fs unique calls0 (mkCall ctx "fallocate" [.n nodeid, .n (u64At b 0), .n (u32At b 24), .n (u64At b 8), .n (u64At b 16)]) [] unitBody
   | 46 => -- LSEEK
-    withObj 24 fun b =>
-      simple (mk "lseek" [.n nodeid, .n (u64At b 0), .n (u64At b 8), .n (u32At b 16)]) [] fun
+    withObj cfg calls0 r 24 fun b =>
+      simple cfg fs unique calls0 (mkCall ctx "lseek" [.n nodeid, .n (u64At b 0), .n (u64At b 8), .n (u32At b 16)]) [] fun
         | .count n => some (le64 n, [])
         | _ => none
   | 48 => -- SETUPMAPPING (virtio-fs DAX window)
     if !cfg.hasVuReq then
-      let (o, rt) := replyErr cfg unique (.os EINVAL)
-      { calls := calls0, out := o, ret := rt, minor := cfg.minor }
-    else withObj 40 fun b =>
-      simple (mk "setupmapping" [.n nodeid, .n (u64At b 0), .n (u64At b 8), .n (u64At b 16), .n (u64At b 24), .n (u64At b 32)]) [] unitBody
+      errRes cfg unique (calls0) [] (.os EINVAL)
+    else withObj cfg calls0 r 40 fun b =>
+      simple cfg fs unique calls0 (mkCall ctx "setupmapping" [.n nodeid, .n (u64At b 0), .n (u64At b 8), .n (u64At b 16), .n (u64At b 24), .n (u64At b 32)]) [] unitBody
   | 49 => -- REMOVEMAPPING
     if !cfg.hasVuReq then
-      let (o, rt) := replyErr cfg unique (.os EINVAL)
-      { calls := calls0, out := o, ret := rt, minor := cfg.minor }
-    else withObj 4 fun b =>
+      errRes cfg unique (calls0) [] (.os EINVAL)
+    else withObj cfg calls0 r 4 fun b =>
       let count := u32At b 0
       if count * 16 > MAX_BUFFER_SIZE then
-        let (o, rt) := replyErr cfg unique (.os ENOMEM)
-        { calls := calls0, out := o, ret := rt, minor := cfg.minor }
+        errRes cfg unique (calls0) [] (.os ENOMEM)
       else
         let rest := r.drop 4
         if rest.length < count * 16 then bail cfg calls0 [count * 16] .decodeMessage
         else
           let items := (List.range count).map fun i => (u64At rest (16 * i), u64At rest (16 * i + 8))
-          simple (mk "removemapping" [.n nodeid, .pairs items]) [count * 16] unitBody
+          simple cfg fs unique calls0 (mkCall ctx "removemapping" [.n nodeid, .pairs items]) [count * 16] unitBody
   | _ =>
-    let (o, rt) := replyErr cfg unique (.os ENOSYS)
-    { calls := calls0, out := o, ret := rt, minor := cfg.minor }
+    errRes cfg unique (calls0) [] (.os ENOSYS)
+
+def hdrLenOf (req : Bytes) : Nat := u32At req 0
+def opOf (req : Bytes) : Nat := u32At req 4
+def uniqueOf (req : Bytes) : Nat := u64At req 8
+def nodeidOf (req : Bytes) : Nat := u64At req 16
+
+/-- the per-request `id_remap_with_nodeid` call -/
+def remapCall (req : Bytes) : Call := { method := "id_remap", ctx := ctxOfHeader req, args := [.n (nodeidOf req)] }
+
+/-- the context the handlers see: the header's ids, possibly rewritten by the remap call -/
+def ctxAfterRemap (req : Bytes) (a : Ans) : Ctx :=
+  match a with
+  | .remapSet u g => { ctxOfHeader req with uid := u, gid := g }
+  | _ => ctxOfHeader req
+
+/-- everything after the header has been read and the context remapped -/
+def afterRemap (cfg : Cfg) (fs : Call → Ans) (req : Bytes) (a : Ans) : Res :=
+  if hdrLenOf req > MAX_BUFFER_SIZE + BUFFER_HEADER_SIZE then
+    if isForget (opOf req) then { calls := [remapCall req], ret := .err .invalidMessage, minor := cfg.minor }
+    else errRes cfg (uniqueOf req) [remapCall req] [] (.os ENOMEM)
+  else handleBody cfg fs (ctxAfterRemap req a) [remapCall req] (hdrLenOf req) (opOf req) (uniqueOf req)
+         (nodeidOf req) (req.drop IN_HDR)
 
 /-- `Server::handle_message` -/
 def handle (cfg : Cfg) (fs : Call → Ans) (req : Bytes) : Res :=
   if req.length < IN_HDR then { ret := .err .decodeMessage, minor := cfg.minor }
   else
-    let h := req.take IN_HDR
-    let r := req.drop IN_HDR
-    let hdrLen := u32At h 0
-    let op := u32At h 4
-    let unique := u64At h 8
-    let nodeid := u64At h 16
-    let ctx0 := ctxOfHeader h
-    let remap : Call := { method := "id_remap", ctx := ctx0, args := [.n nodeid] }
-    match fs remap with
-    | .err _ => { calls := [remap], ret := .err .failedToRemapID, minor := cfg.minor }
-    | a =>
-      let ctx := match a with
-        | .remapSet u g => { ctx0 with uid := u, gid := g }
-        | _ => ctx0
-      if hdrLen > MAX_BUFFER_SIZE + BUFFER_HEADER_SIZE then
-        if isForget op then { calls := [remap], ret := .err .invalidMessage, minor := cfg.minor }
-        else
-          let (o, rt) := replyErr cfg unique (.os ENOMEM)
-          { calls := [remap], out := o, ret := rt, minor := cfg.minor }
-      else handleBody cfg fs ctx [remap] hdrLen op unique nodeid r
+    match fs (remapCall req) with
+    | .err _ => { calls := [remapCall req], ret := .err .failedToRemapID, minor := cfg.minor }
+    | a => afterRemap cfg fs req a
 
 end Fbr.Srv
